@@ -47,9 +47,14 @@ BfZero == <<<<>>, 0>>
 BfTrunc(M, q) == IF Len(M) <= PL THEN <<M, q>> ELSE <<SubSeq(M, Len(M) - PL + 1, Len(M)), q + (Len(M) - PL)>>
 BfNat(M) == BfTrunc(M, 0)
 BfMul(a, b) == IF a[1] = <<>> \/ b[1] = <<>> THEN BfZero ELSE BfTrunc(Mul(a[1], b[1]), a[2] + b[2])
-RECURSIVE BfPow(_, _)
-BfPow(a, n) == IF n = 0 THEN <<One, 0>> ELSE IF n = 1 THEN a
-               ELSE LET h == BfPow(a, n \div 2)  h2 == BfMul(h, h) IN IF n % 2 = 0 THEN h2 ELSE BfMul(h2, a)
+(* a^n by repeated squaring.  The intermediate powers are bound by set comprehension over singletons: TLC does not
+   reliably cache LET-bound or argument expressions (never under -coverage), and a twice-used square would make the
+   recursion exponential. *)
+RECURSIVE BfPowS(_, _)
+BfPowS(a, n) == IF n = 0 THEN {<<One, 0>>} ELSE IF n = 1 THEN {a}
+                ELSE IF n % 2 = 0 THEN {BfMul(h, h) : h \in BfPowS(a, n \div 2)}
+                ELSE {BfMul(h2, a) : h2 \in {BfMul(h, h) : h \in BfPowS(a, n \div 2)}}
+BfPow(a, n) == CHOOSE v \in BfPowS(a, n) : TRUE
 BfCmp(a, b) ==
   IF a[1] = <<>> THEN (IF b[1] = <<>> THEN 0 ELSE -1)
   ELSE IF b[1] = <<>> THEN 1
@@ -176,21 +181,25 @@ BoundaryVerdicts(curve, max, k, xb, xa) ==
 
    TOLERANCE RelBits.  from_linear is powf (< 1 ulp), one fused multiply-subtract whose cancellation at the knee
    amplifies by (Y + a)/Y <= 2.4, and constants rounded to the component type (an exponent error e changes the result
-   by e * |ln x| relative: up to 2.4 * 2^-Prec at the sRGB knee, 5 * 2^-Prec for x = 2^-30 on the pure power curves);
-   into_linear the same with the exponent p/q <= 2.6 multiplying the error of the argument when it is mapped back to
-   Y.  Principled bound about 8 * 2^-Prec on Y; calibrated on the pinned tree (evidence: max_deviation_observed,
-   largest 3.0 * 2^-24 for f32, 3.4 * 2^-53 for f64); 2^-(Prec - 7) = 128 * 2^-Prec leaves more than the required 8x. *)
+   by e * |ln x| relative: 2.4 u at the sRGB knee, 31 u on x for x = 2^-28 on the pure power curves, u = 2^-Prec);
+   into_linear the same, its error divided by the exponent p/q when mapped back to Y.  Principled bound about 16 u.
+   Calibration on the pinned tree (evidence: max_deviation_observed, in units of u): float curves f32 <= 15 u,
+   f64 <= 11 u; decode tables f32 <= 1 u, f64 <= 33 u (ProPhoto code 2048, the table generator's alpha = 1 + 2^-52).
+   Hence 128 u for f32 and 512 u for f64.
+   PUBLICATION: the exact Rec. constants are published to 15 digits (alpha - 1 to 13); palette's table generator solves
+   alpha from the 15-digit beta and lands 2.9e-15 away, which is 270 u of Y at the knee in f64.  For that curve in f64
+   the tolerance is 2^-41 = 4096 u (> 8 x 270). *)
 Prec(t) == IF t = "f32" THEN 24 ELSE 53
-RelBits(t) == Prec(t) - 7
-AbsBits(t) == IF t = "f32" THEN 40 ELSE 70        \* results below 2^-23 / 2^-24 are not asserted tighter than this
+RelBits(curve, t) == IF t = "f32" THEN 17 ELSE IF curve = "rec_oetf" THEN 41 ELSE 44
+AbsBits(t) == IF t = "f32" THEN 40 ELSE 70        \* floor of the tolerance for results near zero
 (* the bracket <<Ylo, Yhi>> = Y -+ (Y * 2^-RelBits + 2^-AbsBits) of Y = n/d, built with shifts only and on one
    denominator (a sum of rationals would multiply the denominators, and TLC pays for every limb) *)
-Bracket(t, Y) ==
-  LET ab == AbsBits(t)  rb == RelBits(t)
+Bracket(curve, t, Y) ==
+  LET ab == AbsBits(t)  rb == RelBits(curve, t)
       n2 == Shl(Y[1], ab)  d2 == Shl(Y[2], ab)
       tl == Add(Shl(Y[1], ab - rb), Y[2])
   IN <<<<IF Le(n2, tl) THEN Zero ELSE Sub(n2, tl), d2>>, <<Add(n2, tl), d2>>>>
-OnCurveTol(curve, t, x, Y) == \A b \in {Bracket(t, Y)} : OnCurve(curve, x, b[1], b[2])
+OnCurveTol(curve, t, x, Y) == \A b \in {Bracket(curve, t, Y)} : OnCurve(curve, x, b[1], b[2])
 
 (* (x, y) is a point of the curve: x linear, y encoded, both exact dyadics >= 0 *)
 CurveOK(curve, t, x, y) == OnCurveTol(curve, t, x, RatOfDy(y))
@@ -210,8 +219,9 @@ StraddlesKnee(curve, dir, v0, v1) ==
 KneeStepOK(d) == RatCmp(RatMul(d, Rat(1000000, 1)), Rat(1, 1)) < 0
 
 (* TOLERANCE RoundTripBits: dec(enc(v)) and enc(dec(v)) against v, relative to v.  Two curve evaluations, the second
-   amplifying the error of the first by the local exponent (<= 2.6, or its inverse): principled ~ 8 * 2^-Prec;
-   calibrated (evidence: max_deviation_observed roundtrip); 2^-(Prec - 7).  At the join the published step is allowed. *)
+   amplifying the error of the first by the local exponent (<= 2.6, or its inverse): principled ~ 16 u; calibrated
+   (evidence: max_deviation_observed, the roundtrip entries): <= 15 u in f32, <= 10 u in f64 away from the join; 128 u.
+   At the join the published step is allowed. *)
 RoundTripBits(t) == Prec(t) - 7
 RoundTripOK(curve, t, dir, v, back) ==
   LET V == RatOfDy(v)  d == RatAbsDiff(V, RatOfDy(back))
